@@ -180,6 +180,13 @@ func (h *TwoPartyHandler) advance() {
 }
 
 func (h *TwoPartyHandler) CanAccept(msg *Message) bool {
+	h.mtx.Lock()
+	defer h.mtx.Unlock()
+	return h.canAccept(msg)
+}
+
+// canAccept is CanAccept for callers that already hold h.mtx.
+func (h *TwoPartyHandler) canAccept(msg *Message) bool {
 	r := h.round
 	if msg == nil {
 		return false
@@ -209,7 +216,7 @@ func (h *TwoPartyHandler) Accept(msg *Message) {
 	h.mtx.Lock()
 	defer h.mtx.Unlock()
 
-	if !h.CanAccept(msg) || h.err != nil || h.result != nil {
+	if !h.canAccept(msg) || h.err != nil || h.result != nil {
 		return
 	}
 
